@@ -149,7 +149,7 @@ class DyadCarrier(object):
         if self.shape[0] < 0 and self.shape[1] < 0:
             return DyadCarrier()
         # Index lists behave as index arrays (pointwise selection), as in numpy
-        subscript = tuple(np.asarray(si) if isinstance(si, list) else si for si in subscript)
+        subscript = tuple(np.asarray(si, dtype=None if len(si) else int) if isinstance(si, list) else si for si in subscript)
 
         usample = np.zeros(self.shape[0])[subscript[0]]
         vsample = np.zeros(self.shape[1])[subscript[1]]
